@@ -86,6 +86,10 @@ CLAIMS["C15"] = dict(ref="§5 C15", tech="TLA+ decoders of the architectural des
     text="The TSS descriptor returned for every pointer of the 64-bit boundary lattice and random pointers is decoded by the specification per the 16-byte system-descriptor format and must give base = pointer, limit 0x67, type 9, present, DPL 0, all reserved bits zero; predefined code/data descriptors and flag presets must decode to what their names state; dpl() = bits 45-46; field offsets, sizes, iomap_base = 0x68 and the raw bytes of a DescriptorTablePointer are compared with the manual's layout.",
     note=TB_PURE.replace("the declarative lemmas in the specification", "the descriptor decoders in Gdt.tla"))
 
+CLAIMS["C12"] = dict(ref="§5 C12", tech="TLA+ model of the IDT with the architectural 64-bit gate encoding (Idt.tla; setters as a state machine checked by TLC in MC_Idt: own field of own gate only, encode/decode round trip, reserved bits zero); TLC trace validation (Trace_Idt.tla) of raw-byte diffs of the real table after every call, of index/range access and of the trapped lidt operand",
+    text="TLC explores all setter sequences on a restricted vector domain and checks that every setter changes only its field of its gate and that gates encode/decode per the architectural layout; on the real crate, for all 256 vectors and every access path, handler installation and random option-setter sequences are recorded with the raw 16-byte gates that changed and TLC compares them with the encoding of the specification's gate (address, current CS, present, interrupt gate, DPL 0, IST 0; setters change only their field; handler_addr reads back); Index<u8> offset = 16v or refusal exactly on reserved/error-code/diverging vectors; every RangeBounds form gives the slice at byte 16*lower of length upper-lower or refuses below vector 32; untouched/reset tables are all non-present interrupt gates; lidt gets the table address and limit 4095.",
+    note=TB_CPU)
+
 NA_DEFAULT = "check under construction in this session (planned in DESIGN.md section 5); not yet claimed"
 
 m = {
